@@ -109,6 +109,16 @@ def run(ctx):
     if mc["uncovered"]:
         raise vlib.ToolError(f"vacuity: actions never taken in L1: {mc['uncovered']}")
 
+    # L0: the requirement module's invariant is inductive for arbitrary identifiers (Apalache; sets bounded in cardinality only)
+    base, w1 = vlib.apalache_check(FAMILY, "ApQuads.tla", ["--cinit=ConstInit", "--init=Init", "--inv=IndInv", "--length=0"], tag="c04-base")
+    step, w2 = vlib.apalache_check(FAMILY, "ApQuads.tla", ["--cinit=ConstInit", "--init=IndInit", "--inv=IndInv", "--length=1"], tag="c04-step")
+    ctl, w3 = vlib.apalache_check(FAMILY, "ApQuads.tla", ["--cinit=ConstInit", "--init=IndInit", "--next=NextBroken", "--inv=IndInv", "--length=1"], tag="c04-ctl")
+    if (base, step, ctl) != ("ok", "ok", "error"):
+        raise vlib.ToolError(f"Apalache: TypeOK /\\ CatalogCovers is not inductive for Quads.tla (base={base}, step={step}) or the broken DROP is not "
+                             f"rejected (control={ctl}): the requirement module is wrong, not a verdict")
+    log(f"L0 Apalache: TypeOK /\\ CatalogCovers is an inductive invariant of Quads.tla for arbitrary identifiers (base {w1:.0f}s, step {w2:.0f}s); "
+        f"a DROP that keeps the quads is rejected ({w3:.0f}s)")
+
     edges, st = vlib.tlc_emit(FAMILY, "MCQuads.tla", "MC_emit_thorough.cfg" if thorough else "MC_emit_quick.cfg")
     walks = edge_cover(edges, 600)
     nreads = 10 if thorough else 6
@@ -157,9 +167,13 @@ def run(ctx):
         "spec_edges_covered": len(edges), "l2_steps": steps2, "l3_steps": steps3,
         "read_calls_checked": sum(len(e["reads"]) for runs in (runs2, runs3) for ev in runs.values() for e in ev[1:]),
         "trace_states": res2["states"] + res3["states"],
+        "apalache_inductive_invariant": {"module": "tla/quads/ApQuads.tla", "invariant": "TypeOK /\\ CatalogCovers", "base": base, "step": step,
+                                         "negative_control_rejected": ctl == "error", "bounds": "sets of at most 3 identifiers per sort, 5 quads; identifier values unbounded"},
     }
     vlib.write_evidence("C04", ctx.tier, ctx.seed, "model_checking", cov,
-                        ["exhaustive only within the cfg constants (2x1x2 terms, 2 named graphs, bounded quad count); beyond: sampled histories",
+                        ["the Apalache result is about the requirement module Quads.tla only (inductive invariant, identifiers unbounded in value); the code-shaped "
+                         "QuadsImpl.tla with its nested maps and recursive operators is checked by TLC",
+                         "exhaustive only within the cfg constants (2x1x2 terms, 2 named graphs, bounded quad count); beyond: sampled histories",
                          "read calls after each step are a seeded sample of all (kind, arguments) combinations, not all of them",
                          "index target: `rebuild` is a clone (serde_json cannot serialise the enum-keyed maps); db target: build_all_indexes"],
                         time.time() - t0, len(verdict.violations))
